@@ -32,6 +32,17 @@ CLAIMED = {
         'technique': 'contract-based deductive verification (Verus) of extracted real code',
         'design_ref': 'DESIGN.md 5/C06 and 8.11',
     },
+    'C07': {
+        'text': 'Deductive proof (Verus): symmetry of unification as a lemma (lemma_unify_symmetric, spec/mgu.rs) over single-call contracts that the verbatim body of Unifiable::unify is proved against - '
+                '#mgu (every finite-tree unifier respecting the prior bindings makes unify succeed and respects the result), #th_sound (every solution of the result gives both terms the same value) and #keeps. '
+                'For all clean terms (no `$_`, function term or NaN) and clean prior substitutions: if a unifier extending the prior bindings exists, A = B and B = A both succeed; if either order succeeds with a result that has any solution, '
+                'so does the other; and when both succeed the two results have exactly the same solutions, i.e. every variable has the same value under every instance of either result (equal up to renaming of unbound variables). '
+                'A bounded comparison of both orders on the real code (labelled bounded, never counted) runs in addition and includes `$_`.',
+        'note': 'Trusted: T1, T2, T4, T5, T6 (IEEE == is an equivalence on non-NaN floats: axiom_f64_eq_is_an_equivalence). Not covered: pairs where one order succeeds with bindings that have no finite solution (occurs-check situations); `$_`; '
+                'head/goal unification through the solver (the clause covers every unify call); the textbook step from "same solutions" to a syntactic renaming.',
+        'technique': 'contract-based deductive verification (Verus) of extracted real code: relational property derived as a lemma over the callee contract',
+        'design_ref': 'DESIGN.md 8.12',
+    },
     'C08': {
         'text': 'Deductive proof (Verus): acyclicity of variable-to-variable chains is a pre/postcondition of the verbatim unify (every exit, including both loops and the recursive calls), '
                 'via lemma_bind_keeps_acyclic (binding an unbound x to a non-variable, or to a variable whose chain does not end at x, keeps all chains finite). Unbounded in sequence length: '
